@@ -3,6 +3,7 @@ package main
 // The check orchestrator: gosym check <id> --tier quick|thorough | --replay <dir>
 
 import (
+	"sync"
 	"bytes"
 	"encoding/json"
 	"flag"
@@ -304,6 +305,14 @@ func runCheck(def *checkDef, tier string, seed int64, workers int) int {
 		fmt.Println("INCONCLUSIVE:", msg)
 	}
 	jobs := def.Jobs(tier, seed)
+	// job names are unique (they name the solver transcripts of jobs that run side by side)
+	seenName := map[string]int{}
+	for k := range jobs {
+		seenName[jobs[k].Name]++
+		if c := seenName[jobs[k].Name]; c > 1 {
+			jobs[k].Name = fmt.Sprintf("%s/%d", jobs[k].Name, c)
+		}
+	}
 	pkgOf := func(j jobSpec) string {
 		if j.Pkg != "" {
 			return j.Pkg
@@ -416,9 +425,34 @@ func runCheck(def *checkDef, tier string, seed int64, workers int) int {
 	var abnormalJobs []*interp.JobResult
 	var samples []interface{}
 	rng := rand.New(rand.NewSource(seed))
-	crossJobs, crossQueries := 0, 0
+	crossJobs, crossQueries, crossPicked := 0, 0, 0
+	var crossWG sync.WaitGroup
+	var crossMu sync.Mutex
+	var crossNotes []string
+	// Up to four jobs are explored at once (the engine's CPU tokens keep the number of running
+	// paths at the number of CPUs); their results are processed here in job order.
+	type jobDone struct {
+		res *interp.JobResult
+		err error
+	}
+	done := make([]chan jobDone, len(jobs))
+	for n := range done {
+		done[n] = make(chan jobDone, 1)
+	}
+	go func() {
+		slots := make(chan struct{}, 4)
+		for n, j := range jobs {
+			slots <- struct{}{}
+			go func(n int, j jobSpec) {
+				res, err := eng.RunJob(interp.Job{Name: j.Name, Func: modulePath + "/" + overlayDir + "/" + pkgOf(j) + "." + j.Func, Params: j.Params, Opts: j.Opts, MaxPaths: j.MaxPaths}, workers)
+				done[n] <- jobDone{res, err}
+				<-slots
+			}(n, j)
+		}
+	}()
 	for n, j := range jobs {
-		res, err := eng.RunJob(interp.Job{Name: j.Name, Func: modulePath + "/" + overlayDir + "/" + pkgOf(j) + "." + j.Func, Params: j.Params, Opts: j.Opts, MaxPaths: j.MaxPaths}, workers)
+		d := <-done[n]
+		res, err := d.res, d.err
 		if err != nil {
 			note("job %s: %v", j.Name, err)
 			continue
@@ -426,23 +460,31 @@ func runCheck(def *checkDef, tier string, seed int64, workers int) int {
 		results = append(results, res)
 		// cross-check the answers of one worker's solver session with a second solver, for the
 		// first jobs and a seed-chosen sample of the rest; transcripts are removed afterwards
-		if res.Solver.Queries > 0 && (crossJobs < 3 || rng.Intn(20) == 0) && crossJobs < 12 {
-			tr := filepath.Join(smtDir, fmt.Sprintf("solver-%s-0.smt2", sanitizeJob(j.Name)))
-			n, disagreement, err := crossCheck(tr, 3<<20)
-			switch {
-			case err != nil:
-				note("cross-check of job %s with cvc5 failed: %v", j.Name, err)
-			case disagreement != "":
-				note("solvers disagree on job %s: %s", j.Name, disagreement)
-			case n > 0:
-				crossJobs++
-				crossQueries += n
-			}
-		}
-		if files, _ := filepath.Glob(filepath.Join(smtDir, "*.smt2")); len(files) > 0 {
-			for _, f := range files {
-				os.Remove(f)
-			}
+		tr := filepath.Join(smtDir, fmt.Sprintf("solver-%s-0.smt2", sanitizeJob(j.Name)))
+		if res.Solver.Queries > 0 && (crossPicked < 3 || rng.Intn(20) == 0) && crossPicked < 12 {
+			// runs beside the exploration of the following jobs; collected before the verdict
+			crossPicked++
+			crossWG.Add(1)
+			go func(name, tr string) {
+				defer crossWG.Done()
+				if os.Getenv("GOSYM_KEEP_SMT") == "" {
+					defer os.Remove(tr)
+				}
+				n, disagreement, err := crossCheck(tr, 3<<20)
+				crossMu.Lock()
+				defer crossMu.Unlock()
+				switch {
+				case err != nil:
+					crossNotes = append(crossNotes, fmt.Sprintf("cross-check of job %s with cvc5 failed: %v", name, err))
+				case disagreement != "":
+					crossNotes = append(crossNotes, fmt.Sprintf("solvers disagree on job %s: %s", name, disagreement))
+				case n > 0:
+					crossJobs++
+					crossQueries += n
+				}
+			}(j.Name, tr)
+		} else {
+			os.Remove(tr)
 		}
 		if res.Wall > 5 {
 			fmt.Printf("[%s]   job %s: %d paths in %.1fs (%d solver queries)\n", def.ID, j.Name, res.Paths, res.Wall, res.Solver.Queries)
@@ -485,6 +527,11 @@ func runCheck(def *checkDef, tier string, seed int64, workers int) int {
 		if (n+1)%50 == 0 || n == len(jobs)-1 {
 			fmt.Printf("[%s] %d/%d jobs, %d paths, %d obligations (%d discharged), %d violations so far, %.0fs\n", def.ID, n+1, len(jobs), total.paths, total.oblig, total.disch, len(allViol), time.Since(t0).Seconds())
 		}
+	}
+
+	crossWG.Wait()
+	for _, n := range crossNotes {
+		note("%s", n)
 	}
 
 	// 3. abnormal ends become violations with the signature registered for their kind
@@ -990,7 +1037,9 @@ func crossCheck(transcript string, maxBytes int64) (int, string, error) {
 	if err := os.WriteFile(tmp, script.Bytes(), 0o644); err != nil {
 		return 0, "", err
 	}
-	defer os.Remove(tmp)
+	if os.Getenv("GOSYM_KEEP_SMT") == "" {
+		defer os.Remove(tmp)
+	}
 	cmd := exec.Command("cvc5", "--incremental", "--tlimit-per=20000", tmp)
 	out, err := cmd.CombinedOutput()
 	var got []string
